@@ -33,6 +33,7 @@ LIB = os.path.join(HERE, "lib.janet")
 WINDOWS = os.path.join(HERE, "windows.json")
 
 TOP = 10 ** 6
+CHILD_CPU_SECONDS = 3000   # RLIMIT_CPU of every worker process (a chunk needs at most a few hundred)
 HANG_TIMEOUT = 20          # seconds; the same items take milliseconds when they terminate
 STACK_BYTES = 8 << 20
 
@@ -99,7 +100,7 @@ def load_catalog():
 
 
 # consumers that start with another consumer of the same family on the same input: a failure of the
-# base at a depth <= d explains the failure of the derived consumer at d (same signature)
+# base at a depth <= d (+10 %: crash boundaries jitter) explains the failure of the derived consumer at d (same signature)
 BASE = {
     ("form", "eval"): "compile", ("form", "compile-gc-disasm"): "compile", ("form", "compile-marshal"): "compile",
     ("macro", "eval"): "compile",
@@ -354,8 +355,18 @@ def main():
         except (ValueError, OSError) as e:
             raise HarnessError("cannot set the 8 MiB stack limit: %s" % e)
 
+    # a worker that loops for ever must not outlive this check if the check itself is killed: cap its CPU time
+    _orig_limit = core._limit_memory
+
+    def _limit_memory_and_cpu():
+        _orig_limit()
+        try:
+            resource.setrlimit(resource.RLIMIT_CPU, (CHILD_CPU_SECONDS, CHILD_CPU_SECONDS + 5))
+        except (ValueError, OSError):
+            pass
+    core._limit_memory = _limit_memory_and_cpu
+
     guards = read_guards()
-    RG = guards["JANET_RECURSION_GUARD"]
     pairs = load_catalog()
     if only:
         pairs = [p for p in pairs if p.family in only or p.name in only]
@@ -421,7 +432,7 @@ def main():
             chk.cap("depth sweep stopped before depth %d (time budget)" % d)
             break
         work = [(p, d) for p in sweep_pairs if sched(p, d)]
-        run_split(work, 48, 90 if d < 100000 else 400, jobs=16 if d < (1 << 18) else 12)
+        run_split(work, 48, 90 if d < 100000 else (400 if quick else 900), jobs=16 if d < (1 << 18) else 12)
         chk.part("depth_%d" % d, items=len(work), wall_s=round(chk.elapsed(), 1))
         chk.cov["bound_completed"] = "depth %d" % d
 
@@ -481,7 +492,7 @@ def main():
         b = BASE.get((p.family, p.consumer))
         if b:
             q = bykey.get((p.family, b, p.shape))
-            if q and any(o.cls in ("CRASH", "EXIT", "DEAD", "TIMEOUT", "OOM") and dd <= d for dd, o in q.obs.items()):
+            if q and any(o.cls in ("CRASH", "EXIT", "DEAD", "TIMEOUT", "OOM") and dd <= d * 1.1 + 8 for dd, o in q.obs.items()):
                 return sig_pair(q, d)
         return p
 
